@@ -5,6 +5,7 @@ from .. import obs
 from ..core import HarnessError
 
 LEVEL = "exploration"
+SUITE_MONITOR = True      # also judge the repository's own tests/doctests through rv/monitors.py
 RULE = ("Seeded straight-line programs (15-40 steps) over a growing pool of FmtStr values; every "
         "step applies one operation of the public set (+, radd with str, *, slice, index, splice, "
         "append, join, split, splitlines, ljust/rjust, copy_with_new_atts, new_with_atts_removed, "
